@@ -45,8 +45,36 @@ def build_model(rng, torch, transformer):
     with torch.no_grad():
         for p in net.parameters():
             p.copy_(torch.randn_like(p) * 0.5)
+        # some models like the ignore symbol (class nclass-1) or the boundary symbol: lines that emit "ignore" before they finish
+        r = rng.random()
+        if r < 0.35:
+            net.dec_out_proj.bias[nclass - 1] += rng.choice([1.0, 2.0, 3.0])
+        elif r < 0.5:
+            net.dec_out_proj.bias[nclass - 2] += rng.choice([0.5, 1.0])
     net.eval()
     return net, dict(dim=dim, heads=heads, layers=layers, classes=nclass)
+
+
+def greedy_reference(torch, net, eng, x1):
+    """Greedy decoding of ONE line image with the masked (teacher-forced) forward pass only. Returns (transcription, clear)."""
+    W = x1.shape[3]
+    X = torch.from_numpy(x1).float() / 255.0
+    prefix = [eng.sentence_boundary_ind]
+    emitted, clear = [], True
+    while True:
+        lg = net.forward(X, torch.tensor([prefix], dtype=torch.long))[-1, 0]       # scores of the last position
+        top = torch.topk(lg, 2).values
+        if float(top[0] - top[1]) < 1e-3:
+            clear = False
+        sym = int(torch.argmax(lg))
+        if sym == eng.sentence_boundary_ind:
+            break
+        if len(prefix) > W // 4:
+            break
+        emitted.append(sym)
+        prefix.append(sym)
+    greedy_reference.last_emitted = emitted
+    return [s for s in emitted if s != eng.ignore_ind], clear
 
 
 def make_engine(net, nclass):
@@ -120,6 +148,15 @@ def run(ctx):
                     tf = fnet.forward(torch.from_numpy(x).float() / 255.0, prefix).permute(1, 0, 2)
                     if (tf - ref[bi][1]).abs().max() > 1e-4:
                         ctx.violation('teacher-forced', 'step-by-step scores differ from the full masked forward pass', inp, float((tf - ref[bi][1]).abs().max()))
+                    # (g) the transcription is what GREEDY decoding with the full masked pass gives for the line on its own: symbols up to
+                    # the first boundary (or the length cap W//4), ignore symbols skipped - whatever the other lines of the batch do
+                    for k in range(x.shape[0]):
+                        exp_line, clear = greedy_reference(torch, fnet, eng, x[k:k + 1])
+                        if clear and ref[bi][0][k] != exp_line:
+                            ctx.violation('greedy-reference', "a line's transcription is not greedy decoding of that line with the masked forward pass "
+                                          '(up to its first boundary / the length cap, ignore symbols skipped)', inp, [bi, k, ref[bi][0][k]], exp_line)
+                        elif not clear:
+                            ctx.count('greedy_reference_near_ties_skipped')
                     # (d) per-line independence inside the batch
                     if x.shape[0] > 1:
                         k = rng.randrange(x.shape[0])
@@ -129,6 +166,32 @@ def run(ctx):
                         Tk = lg1.shape[1]
                         if lab1[0].tolist() != ref[bi][0][k] or (lg1[0] - ref[bi][1][k, :Tk]).abs().max() > 1e-4:
                             ctx.violation('line-depends-on-batch', "a line's result depends on the other lines of its batch", inp, [bi, k])
+                    # every line also decoded ALONE (a batch of one) against the greedy reference
+                    for k in range(x.shape[0]):
+                        aeng = make_engine(copy.deepcopy(fresh_net), cfg['classes'])
+                        lab_a, lg_a = aeng.transcribe_batch(x[k:k + 1], is_cached=True)
+                        emitted = lg_a[0].argmax(dim=-1).tolist()
+                        if eng.ignore_ind in emitted and (eng.sentence_boundary_ind not in emitted or emitted.index(eng.ignore_ind) < emitted.index(eng.sentence_boundary_ind)):
+                            ctx.count('lines_emitting_ignore_before_boundary')
+                        exp_line, clear = greedy_reference(torch, fnet, eng, x[k:k + 1])
+                        if clear and lab_a[0].tolist() != exp_line:
+                            ctx.violation('greedy-reference:alone', "a line decoded alone is not greedy decoding of that line with the masked forward pass "
+                                          '(up to its first boundary / the length cap, ignore symbols skipped)', inp, [bi, k, lab_a[0].tolist()], exp_line)
+                # (h) more single lines for this model (cheap): lines that emit the ignore symbol and then go on with real symbols
+                for _ in range(12 if ctx.quick() else 30):
+                    xs = np.random.RandomState(rng.randrange(2 ** 31)).randint(0, 256, size=(1, 3, 16, rng.choice([32, 48, 64, 96]))).astype(np.uint8)
+                    seng = make_engine(copy.deepcopy(fresh_net), cfg['classes'])
+                    lab_s, _ = seng.transcribe_batch(xs, is_cached=True)
+                    exp_line, clear = greedy_reference(torch, fresh_net, eng, xs)
+                    em = greedy_reference.last_emitted
+                    if eng.ignore_ind in em and any(s != eng.ignore_ind for s in em[em.index(eng.ignore_ind):]):
+                        ctx.count('single_lines:ignore_then_symbol')
+                    ctx.evaluations += 1
+                    if clear and lab_s[0].tolist() != exp_line:
+                        ctx.violation('greedy-reference:alone', "a line decoded alone is not greedy decoding of that line with the masked forward pass "
+                                      '(up to its first boundary / the length cap, ignore symbols skipped)',
+                                      dict(model=cfg, width=int(xs.shape[3]), image_seeded=True), lab_s[0].tolist(), exp_line)
+                        break
                 # (e) NaN poisoning of every slot the model calls invalid: read-set within valid-set
                 pnet = copy.deepcopy(fresh_net)
                 peng = make_engine(pnet, cfg['classes'])
@@ -218,6 +281,7 @@ def run(ctx):
             else:
                 ctx.traces_validated += 1
         with torch.no_grad():
+            scripted_loop(ctx, rng, torch)
             for r, (dinp, dobs) in zip(common.Driver(ctx).batch(dreqs), dimpl):
                 dataflow_compare(ctx, r, dinp, dobs)
                 ctx.evaluations += 1
@@ -376,6 +440,87 @@ def dataflow_compare(ctx, reply, inp, obs):
             ctx.disagree('C20 decoder: value of the model term differs from every real route', inp, worst, None)
     else:
         ctx.traces_validated += 1
+
+
+class ScriptNet:
+    """A scripted stand-in for TransformerOCR inside the REAL TransformerEngineLineOCR.transcribe_batch: line b emits
+    script[b][step] at step `step` (the boundary symbol once its script is used up).  Only the greedy loop, the alive mask,
+    the length cap and postprocess_decoded are exercised - exactly what Model/KVCache.transcribeLoop / postprocess describe."""
+
+    def __init__(self, torch, script, nclass, eos):
+        self.torch, self.script, self.nclass, self.eos = torch, script, nclass, eos
+        outer = self
+
+        class Dec:
+            def infer(self, tgt, enc, is_cached=False):
+                out = torch.zeros((tgt.shape[1], 4))
+                out[:, 0] = float(tgt.shape[0] - 1)
+                return out
+        self.trans_decoder = Dec()
+
+    def encode(self, lines):
+        return self.torch.zeros((3, lines.shape[0], 4))
+
+    def dec_embeder(self, idx):
+        return self.torch.zeros((idx.shape[0], 4))
+
+    def pos_encoder(self, x):
+        return x
+
+    def dec_out_proj(self, transformed):
+        step = int(round(float(transformed[0, 0])))
+        out = self.torch.full((transformed.shape[0], self.nclass), -5.0)
+        for b, ln in enumerate(self.script):
+            out[b, ln[step] if step < len(ln) else self.eos] = 5.0
+        return out
+
+
+def scripted_loop(ctx, rng, torch):
+    reqs, impl = [], []
+    for it in range(150 if ctx.quick() else 1500):
+        nclass = rng.randrange(4, 8)
+        eos, ign = nclass - 2, nclass - 1
+        B = rng.choice([1, 1, 2, 3])
+        W = rng.choice([8, 16, 32, 48])
+        script = []
+        for b in range(B):
+            n = rng.randrange(0, W // 4 + 3)
+            ln = [rng.choice(list(range(nclass - 2)) + [ign, ign]) for _ in range(n)]
+            if ln and rng.random() < 0.3:
+                ln.insert(rng.randrange(len(ln) + 1), eos)       # a boundary in the middle: the rest must be cut off
+            script.append(ln)
+        eng = make_engine(ScriptNet(torch, script, nclass, eos), nclass)
+        x = np.zeros((B, 3, 16, W), dtype=np.uint8)
+        inp = dict(scripted_network=True, script=script, boundary=eos, ignore=ign, width=W)
+        ctx.evaluations += 1
+        try:
+            labels, logits = eng.transcribe_batch(x, is_cached=True)
+        except Exception as e:
+            ctx.violation('scripted-raises:' + type(e).__name__, 'transcribe_batch raised %r with a scripted network' % (e,), inp)
+            continue
+        got = [l.tolist() for l in labels]
+        iters = int(logits.shape[1])
+        # independent oracle, per line: what the line emits up to its first boundary (at most W//4 symbols), ignore symbols skipped
+        for b, ln in enumerate(script):
+            cut = ln[:ln.index(eos)] if eos in ln else ln
+            exp = [s for s in cut[:W // 4] if s != ign]
+            if got[b] != exp:
+                ctx.violation('scripted-loop', "a line's transcription is not what the network emits for it up to its first boundary (cap W//4), ignore symbols skipped",
+                              inp, [b, got[b]], exp)
+                break
+        if iters > W // 4 + 2:
+            ctx.violation('loop-too-long', 'decoding did not stop within W//4 + 2 iterations', inp, iters)
+        if B >= 2 or any(ign in ln for ln in script):
+            ctx.nontriv(inp)
+        reqs.append(dict(p='C20', op='loop', script=script, eos=eos, ign=ign, width=W))
+        impl.append((inp, got, iters))
+    if ctx.driver_ok:
+        for r, (inp, got, iters) in zip(common.Driver(ctx).batch(reqs), impl):
+            m = r.get('ok')
+            if m is None or m['texts'] != got or m['iterations'] != iters:
+                ctx.disagree('C20 greedy loop: transcriptions / number of network evaluations differ from the model (transcribeLoop + postprocess)', inp, [got, iters], m)
+            else:
+                ctx.traces_validated += 1
 
 
 class Recorder:
